@@ -54,6 +54,7 @@ class Val:
 
     def with_(self, **kw):
         d = {s: getattr(self, s) for s in self.__slots__}
+        d["dom"] = dict(self.dom)  # plug-in domain values are per value, never shared
         d.update(kw)
         return Val(**d)
 
